@@ -360,6 +360,14 @@ class Gen:
 
     def ranges(self, env, depth):
         r = self.rng
+        cf = [n for n, t in env.items() if isinstance(t, tuple) and t[0] == "cfn"]
+        if cf and r.random() < 0.5:
+            self.feat("content-function")
+            f = r.choice(cf)
+            st = ["lit", r.choice(["200", "201", "404"])]
+            body = self.schema(env, env[f][2], depth)
+            args = [st, body] if env[f][1] == "sb" else [body, st]
+            return ["app", self.varref(f), args]
         n = r.choice([1, 1, 2, 3])
         if n == 1:
             if r.random() < 0.3:
@@ -465,6 +473,20 @@ class Gen:
                 self.feat("function")
                 decls.append({"name": name, "params": params, "rhs": body, "anns": []})
                 env[name] = ("fn", ptags, rt)
+            elif x < 0.62 and allow_fn:
+                # a content-building function and a forwarder whose parameter names are permuted
+                w = self.fresh("w")
+                self.feat("forwarding-function")
+                decls.append({"name": w, "params": ["s", "b"], "rhs": ["content", [("status", ["var", "s"])], ["var", "b"]], "anns": []})
+                bt = r.choice(["obj", "prim", "arr"])
+                env[w] = ("cfn", "sb", bt)
+                g = self.fresh("g")
+                if r.random() < 0.5:
+                    decls.append({"name": g, "params": ["b", "s"], "rhs": ["app", ["var", w], [["var", "b"], ["var", "s"]]], "anns": []})
+                    env[g] = ("cfn", "sb", bt)  # g's first parameter (named b) is the status
+                else:
+                    decls.append({"name": g, "params": ["b", "s"], "rhs": ["app", ["var", w], [["var", "s"], ["var", "b"]]], "anns": []})
+                    env[g] = ("cfn", "bs", bt)
             elif x < 0.65:
                 # recursive declaration through itself
                 name = self.fresh("d")
